@@ -309,9 +309,12 @@ package stun
 //@   assigns a.IP, a.Port, mem(a.IP)
 //@   allocates
 //@   ensures unchanged(m.Raw)
+//@   ensures region(a.IP) == old(region(a.IP)) || fresh(a.IP)
 //@   props C06
 //@   ensures !old(Has(m, t)) ==> result != nil
 //@   ensures result == nil ==> old(len(AttrVal(m, t))) > 4 && (old(be16(AttrVal(m, t), 0)) == 1 || old(be16(AttrVal(m, t), 0)) == 2)
+//@   -- and it succeeds whenever the first attribute of that type starts with a known family and has more than 4 bytes
+//@   ensures old(Has(m, t)) && old(len(AttrVal(m, t))) > 4 && (old(be16(AttrVal(m, t), 0)) == 1 || old(be16(AttrVal(m, t), 0)) == 2) ==> result == nil
 //@   ensures result == nil ==> len(a.IP) == ite(old(be16(AttrVal(m, t), 0)) == 2, 16, 4)
 //@   ensures result == nil ==> a.Port == old(be16(AttrVal(m, t), 2))
 //@   ensures result == nil ==> forall(j, 0, min(len(a.IP), old(len(AttrVal(m, t))) - 4), a.IP[j] == old(AttrVal(m, t)[4+j]))
@@ -1341,6 +1344,25 @@ package stun
 //@   ensures len(a.IP) == 4 ==> result1 == nil && result0.Port == a.Port && len(result0.IP) == 4 && Eq4(result0.IP, a.IP, 0)
 //@   ensures len(a.IP) == 16 && !old(isIPv4spec(a.IP)) ==> result1 == nil && result0.Port == a.Port && len(result0.IP) == 16 && Eq4(result0.IP, a.IP, 0)
 //@   -- (the twelve IPv6 bytes XOR-ed with the transaction ID: Eq16 did not discharge within the solver budget - left to the bounded oracle)
+//@   ensures len(a.IP) == 16 && old(isIPv4spec(a.IP)) ==> result1 == nil && result0.Port == a.Port && len(result0.IP) == 4 && Eq4(result0.IP, a.IP, 12)
+
+//@ func verifLemmaMappedAddrRoundTrip(m, a, t)
+//@   safety C06
+//@   props C06
+//@   requires m != nil && a != nil && Built(m) && Wire(m) && len(m.Raw) >= 20 + m.Length && Fits(m, 20) && region(a.IP) != region(m.Raw)
+//@   requires 0 <= a.Port && a.Port <= 65535 && !Has(m, t) && t != 0x8020 && (t != 0x0020 || !Has(m, 0x8020))
+//@   assigns *m, mem(m.Raw), mem(m.Attributes)
+//@   allocates
+//@   assert len(a.IP) == 4 || len(a.IP) == 16 ==> len(m.Attributes) == old(len(m.Attributes)) + 1 && First(m.Attributes, t) == old(len(m.Attributes))
+//@   assert len(a.IP) == 4 ==> len(AttrVal(m, t)) == 8 && AttrVal(m, t)[0] == 0 && AttrVal(m, t)[1] == 1 && AttrVal(m, t)[2] == uint16(a.Port) / 256 && AttrVal(m, t)[3] == uint16(a.Port) % 256
+//@   assert len(a.IP) == 4 ==> forall(j, 0, 4, AttrVal(m, t)[4+j] == old(a.IP[j]))
+//@   assert len(a.IP) == 16 && !old(isIPv4spec(a.IP)) ==> len(AttrVal(m, t)) == 20 && AttrVal(m, t)[0] == 0 && AttrVal(m, t)[1] == 2 && AttrVal(m, t)[2] == uint16(a.Port) / 256 && AttrVal(m, t)[3] == uint16(a.Port) % 256
+//@   assert len(a.IP) == 16 && !old(isIPv4spec(a.IP)) ==> forall(j, 0, 16, AttrVal(m, t)[4+j] == old(a.IP[j]))
+//@   assert len(a.IP) == 16 && old(isIPv4spec(a.IP)) ==> len(AttrVal(m, t)) == 8 && AttrVal(m, t)[0] == 0 && AttrVal(m, t)[1] == 1 && AttrVal(m, t)[2] == uint16(a.Port) / 256 && AttrVal(m, t)[3] == uint16(a.Port) % 256
+//@   assert len(a.IP) == 16 && old(isIPv4spec(a.IP)) ==> forall(j, 0, 4, AttrVal(m, t)[4+j] == old(a.IP[12+j]))
+//@   ensures len(a.IP) != 4 && len(a.IP) != 16 ==> result1 != nil
+//@   ensures len(a.IP) == 4 ==> result1 == nil && result0.Port == a.Port && len(result0.IP) == 4 && Eq4(result0.IP, a.IP, 0)
+//@   ensures len(a.IP) == 16 && !old(isIPv4spec(a.IP)) ==> result1 == nil && result0.Port == a.Port && len(result0.IP) == 16 && Eq16(result0.IP, a.IP)
 //@   ensures len(a.IP) == 16 && old(isIPv4spec(a.IP)) ==> result1 == nil && result0.Port == a.Port && len(result0.IP) == 4 && Eq4(result0.IP, a.IP, 12)
 
 //@ func Build(setters)
